@@ -61,17 +61,17 @@ PROPS["C07"] = {
     "theorems": [
         "GstProofs.C07.inv_sound", "GstProofs.C07.init", "GstProofs.C07.step_full", "GstProofs.C07.reach_full",
         "GstProofs.C07.reach_auto", "GstProofs.C07.step_partial", "GstProofs.C07.reach_partial",
-        "GstProofs.C07.delete_frame", "GstProofs.C07.counts",
+        "GstProofs.C07.delete_frame", "GstProofs.C07.counts", "GstProofs.C07.setRow_frame", "GstProofs.C07.setArray_frame",
         "GstProofs.Db.deleteByUid_inv", "GstProofs.Db.setLocatorByUID_inv", "GstProofs.Db.setLocatorsByUIDs_inv",
         "GstProofs.Db.switchLoc_inv", "GstProofs.Db.fixNewName_spec", "GstProofs.Db.fixNames_spec",
         "GstProofs.Db.rename_inv", "GstProofs.Db.addColumns_inv", "GstProofs.Db.admissible_of_auto",
     ],
     "harnesses": ["vh_c07"],
     "level": "proof",
-    "technique": "Lean 4 state-machine model of the Db table (uid map, names, columns, role table) with a decidable consistency invariant proved equivalent to its Prop form; invariant preservation proved for every one of the 21 editing operations and, by induction over the history, for every reachable state (side condition: explicit role numbers leave no gap - its negation is known finding F4); every generated history is replayed on the real Db/DbGrid and both the model state and the invariant (evaluated on the library's own state) are compared after each operation",
-    "level_text": "Proof: from a consistent table every accepted editing operation (column addition with name de-duplication, deletion by uid/index/name/role, the four renamings, the five role assignments, role clearing and switching, sample addition/deletion, value assignment) yields a consistent table, for all states and arguments, hence all histories; the side condition on explicit role numbers is exactly the documented known finding F4 and is vacuous for automatic role numbers. The model is tied to Db/DbGrid op by op on generated histories (full observable state compared, and the decidable invariant run on the library's state).",
+    "technique": "Lean 4 state-machine model of the Db table (uid map, names, columns, role table) with a decidable consistency invariant proved equivalent to its Prop form; invariant preservation proved for every one of the 23 operations (21 edits, whole-row write and read) and, by induction over the history, for every reachable state (side condition: explicit role numbers leave no gap - its negation is known finding F4); every generated history is replayed on the real Db/DbGrid and both the model state and the invariant (evaluated on the library's own state) are compared after each operation",
+    "level_text": "Proof: from a consistent table every accepted editing operation (column addition with name de-duplication, deletion by uid/index/name/role, the four renamings, the five role assignments, role clearing and switching, sample addition/deletion, cell and whole-row value assignment) yields a consistent table, for all states and arguments, hence all histories; a value assignment changes exactly the addressed cells (setArray_frame, setRow_frame: every other cell keeps its value); the side condition on explicit role numbers is exactly the documented known finding F4 and is vacuous for automatic role numbers. The model is tied to Db/DbGrid op by op on generated histories (full observable state compared, and the decidable invariant run on the library's state).",
     "level_note": "Trusted: Lean kernel + 3 standard axioms; the hand-written state-machine (validated op by op against the library on every run); names restricted to the grammar [a-z0-9.-] in the harness (names are regular expressions in the library: known finding F32); termination of the renaming loops is by fuel in the model (a fuel exhaustion would show as a model/library difference, never observed).",
-    "rule": "random histories (1-40 operations among 20 public editing operations, ~10% invalid arguments: bad indices, dead uids, unknown names, duplicate names, UNKNOWN locator) on Db and DbGrid; after each operation the full observable state (names, uids, role table, values, counts, and every designation: uid->col, col->role, name->col) is compared with the model and checked by the invariant. distinct = distinct history text; trivial = histories of fewer than 3 operations",
+    "rule": "random histories (1-40 operations among 23 public operations incl. setArrayBySample/getArrayBySample, ~10% invalid arguments: bad indices, dead uids, unknown names, duplicate names, UNKNOWN locator) on Db and DbGrid; after each operation the full observable state (names, uids, role table, values, counts, and every designation: uid->col, col->role, name->col) is compared with the model and checked by the invariant; for value assignments the library's states before and after are also compared cell by cell (untouched cells unchanged, written cells hold the value). distinct = distinct history text; trivial = histories of fewer than 3 operations",
     "trivial": lambda line: line.count(" ; ") < 3,
     "trusted_base": TB_COMMON,
     "uncovered": ["refinement of the ten observers to an abstract table (observers are compared with the library per history, not proved)", "addColumns(tab), addSelection*, setColumn* (not modelled)", "explicit role numbers beyond the next free one (known finding F4: the statement is false there, witness in the proof file)"],
@@ -94,7 +94,7 @@ PROPS["C11"] = {
     "technique": "Lean 4: every matrix operation of the model is its textbook entry-wise definition and is proved equal to the corresponding Mathlib Matrix operation for all shapes (bridge theorems); exact differential correspondence on integer/dyadic matrices for five storage classes and thread counts 1-16; residual certificates (checked in exact rational arithmetic) for inverse/solve/Cholesky/eigen; AddressSanitizer build in the thorough tier",
     "level_text": "Partial proof: products (all transposition flags), transposition, linear combinations, scalings, congruence products and vector products of the model are theorems (equal to Mathlib's Matrix operations, every shape); the model is tied to all storage classes by an exact differential run (sums and products are exact in doubles on the generated contents); inversion, solve, Cholesky and eigen-decomposition are checked by verified-definition residual certificates; thread independence is observed (each case runs at a random thread count 1-16), not proved.",
     "level_note": "Trusted: Lean kernel + 3 standard axioms; Eigen/CSparse kernels are not modelled (only their results are compared/certified); OpenMP scheduling is observed only; log-determinant and simulation of CholeskyDense are not covered.",
-    "rule": "random matrices 1-7 x 1-7 (square, non-square, 1xN, Nx1; dense or half-empty; small integers or dyadics k/4) in storage rect/square/symm/sparse-Eigen/sparse-cs at a random thread count in {1,2,4,8,16}; per matrix: transpose, mat-vec and vec-mat products with both flags, mat-mat product with the 4 flag combinations, linear combination, scalar ops, row/column scaling and division, row/column/diagonal assignment, congruence products, then invert/solve/Cholesky/eigen certificates on SPD matrices, and 16 vector helpers. distinct = distinct request line; trivial = 1x1 matrices",
+    "rule": "random matrices 1-7 x 1-7 (square, non-square, 1xN, Nx1; dense or half-empty; small integers or dyadics k/4) in storage rect/square/symm/sparse-Eigen/sparse-cs at a random thread count in {1,2,4,8,16}; per matrix: transpose, mat-vec and vec-mat products with both flags, mat-mat product with the 4 flag combinations, linear combination, scalar ops, row/column scaling and division, row/column/diagonal assignment, congruence products, then invert/solve/Cholesky/eigen certificates on SPD matrices, solve/invert certificates on symmetric indefinite (bordered, zero diagonal term) and negative definite matrices, and 16 vector helpers. distinct = distinct request line; trivial = 1x1 matrices",
     "trivial": lambda line: " 1 1 " in line and line.split(" ")[1] not in ("v1", "v2", "vl"),
     "trusted_base": TB_COMMON + ["Mathlib Matrix library"],
     "uncovered": ["thread schedules (observed only)", "CholeskyDense log-determinant / simulate", "sparse cs setRow/setColumn (documented to update existing entries only)", "empty (0-row/0-column) matrices"],
@@ -253,7 +253,7 @@ PROPS["C09"] = {
     "technique": "Lean 4 model of the neutral-file readers (total functions: termination accepted by the kernel) with theorems over EVERY file content: the vector reader never returns more values than asked, every accepted Db file yields a consistent table whose size is bounded by the number of tokens of the file, hence every prefix/corruption is either rejected or consistent; correspondence: for every serialisable class (19 loaders incl. CSV, Zycor, IfpEn) byte prefixes and token corruptions of library-written files are offered to the real loader in a forked child (CPU alarm, 2 GB ceiling; AddressSanitizer+UBSan build in the thorough tier); loaded objects must display, save and reload, data bases must satisfy the C07 invariant (Lean `inv`), and the accept/reject decision on Db files is compared with the model reader",
     "level_text": "Partial proof: bounds, consistency and size-boundedness of the record layer and of the Db layout are theorems for all inputs; memory safety and absence of hangs of the C++ code cannot be stated in the model - they are observed on the library (sanitizers in the thorough tier) for prefixes at every byte of files up to 500 bytes (thorough) / 40 sampled bytes (quick) and 60-600 token corruptions per file and class. The per-class readers other than Db are exercised, not modelled.",
     "level_note": "Trusted: Lean kernel + 3 standard axioms; the C++ tokeniser (operator>>, getline) is the trusted front end of the model; ASan/UBSan and the 2 GB / 20 s limits define 'memory corruption', 'exhausts memory' and 'hang'; loaders not in the harness list (DbGraphO, DbMesh*, MeshSpherical, Anam other than Hermite, RuleShift/Shadow, F2G, BMP, LAS) are not exercised.",
-    "rule": "per class: 1 (quick) / 3 (thorough) library-written valid files; mutants = every byte prefix (thorough) or 40 sampled prefixes, 60/600 token mutations (replacement by 21 hostile values incl. negative, huge, non-numeric, NA, comment; deletion; duplication; line deletion; half of them in the header third), wrong tag, binary garbage, garbage tail, empty file. distinct = distinct request line",
+    "rule": "per class: 1 (quick) / 3 (thorough) library-written valid files; mutants = every byte prefix (thorough) or 40 sampled prefixes, 60/600 token mutations (replacement by 21 hostile values incl. negative, huge, non-numeric, NA, comment; deletion; duplication; line deletion; half of them in the header third), wrong tag, binary garbage, garbage tail, empty file; plus a systematic pass over the header: each of the first 20 integer tokens replaced by 2^30, 2^31, 2^32, 46341 and -1 with the other counts left in place (products of individually plausible counts that wrap a 32-bit integer). distinct = distinct request line",
     "trivial": lambda line: " valid " in line,
     "flavour": {"thorough": "asan"},
     "env": {"thorough": {"ASAN_OPTIONS": "detect_leaks=0:max_allocation_size_mb=2048:hard_rss_limit_mb=6000:abort_on_error=1", "UBSAN_OPTIONS": "print_stacktrace=1"}},
